@@ -134,6 +134,12 @@ struct carquet_column_reader {
     /* Retained page data for BYTE_ARRAY value pointers */
     uint8_t* page_data_for_values;
 
+    /* Page buffers of earlier pages that the current read call already handed
+     * BYTE_ARRAY pointers into; released when the next read call starts */
+    uint8_t** retired_page_data;
+    int32_t num_retired_pages;
+    int32_t retired_pages_capacity;
+
     /* Current page state for partial reads */
     bool page_loaded;           /* Is a page currently loaded? */
     int32_t page_num_values;    /* Total values in current page */
@@ -172,6 +178,11 @@ carquet_schema_t* build_schema(
  * Returns mmap_info on success, NULL on failure (fallback to fread).
  */
 carquet_mmap_info_t* carquet_mmap_open(const char* path, carquet_error_t* error);
+
+/**
+ * Free the page buffers retired by earlier read calls (see retired_page_data).
+ */
+void carquet_column_reader_release_retired_pages(carquet_column_reader_t* reader);
 
 /**
  * Close memory mapping and release resources.
